@@ -51,6 +51,8 @@ SEEDED = {
     "C05-A": ["C05"], "C05-B": ["C05"], "C06-A": ["C06", "C03"], "C06-B": ["C06", "C07"], "C08-A": ["C08"], "C08-B": ["C08"],
     "C09-A": ["C09", "C12"], "C09-B": ["C09"], "C12-A": ["C12", "C11"], "C12-B": ["C12", "C09"], "C17-A": ["C17"], "C17-B": ["C17"],
     "C04-A": ["C04"], "C04-B": ["C04"], "C07-A": ["C07"], "C07-B": ["C07"], "C11-A": ["C11"], "C11-B": ["C11"], "C13-A": ["C13"], "C13-B": ["C13"],
+    "X06-A": ["C06"], "X06-B": ["C08", "C06"], "X08-A": ["C08"], "X08-B": ["C08"], "X02-A": ["C02", "C03"], "X02-B": ["C03", "C02"],
+    "X05-A": ["C05"], "X05-B": ["C05"], "X01-A": ["C01"], "X01-B": ["C01"], "X03-A": ["C03"], "X03-B": ["C03"],
     "C14-A": ["C14"], "C14-B": ["C14"], "C15-A": ["C15"], "C15-B": ["C15"], "C16-A": ["C16"], "C16-B": ["C16"],
 }
 
